@@ -46,8 +46,10 @@ def gen_body(rng, kind, fw_acts=False, poke=False):
                 extra.append(("mode", rng.choice(["loose", "learning", "strict"])))
             elif r < 0.75:
                 extra.append(("expect",))
-            elif r < 0.9:
+            elif r < 0.82:
                 extra.append(("call",))
+            elif r < 0.9:
+                extra.append(("setparam",))
             elif poke:
                 extra.append(rng.choice([("poke", rng.choice([1, 2, 7])), ("peek", rng.choice([0, 0, 1, 7]))]))
         for a in extra:
